@@ -28,7 +28,7 @@ RULE = ("pyairtouch.discover() (broadcast and unicast) on the virtual-time loop 
 ASSUMPTIONS = ["datagram arrival exactly at a request instant (tie) is not generated",
                "AT4 responses carry no name: the client's name is not judged",
                "an AT4 response whose id contains a comma: documents silent (undecided)"]
-REQUIRED_OBS = ["searches_judged", "valid_responses_returned", "invalid_datagrams_ignored",
+REQUIRED_OBS = ["searches_on_a_reused_discoverer", "searches_judged", "valid_responses_returned", "invalid_datagrams_ignored",
                 "early_stop_after_response", "three_requests_no_answer", "duplicates_collapsed",
                 "ports_observed", "unicast_mode", "name_with_comma"]
 BUDGET = {"quick": 100, "thorough": 1500}
@@ -108,6 +108,12 @@ def cases(tier, seed):
     n = 400 if tier == "quick" else 200000
     for i in range(n):
         yield {"script": gen_script(rnd), "unicast": "10.1.2.3" if i % 4 == 0 else None}
+    # the public discoverer object used for several searches in a row
+    for i in range(24 if tier == "quick" else 4000):
+        rounds = [[rnd.choice([0.2, 0.7, 1.2])] * rnd.choice([0, 1, 1, 2])
+                  for _ in range(rnd.randint(2, 4))]
+        yield {"k": "reuse", "gen": rnd.choice((4, 5)), "seed": rnd.randrange(1 << 30),
+               "rounds": rounds, "unicast": "10.1.2.3" if i % 3 == 0 else None}
 
 
 def predict(script):
@@ -152,7 +158,81 @@ def _valid(g, data):
     return v
 
 
+def run_reuse(case):
+    """The public discoverer class used for several searches in a row: every search sends its
+    own requests and reports the consoles that answer THAT search."""
+    import pyairtouch.at4.comms.discovery as d4
+    import pyairtouch.at5.comms.discovery as d5
+    import pyairtouch.comms.discovery as cd
+    g = case["gen"]
+    rnd = random.Random(case["seed"])
+    viol, obs, out = [], {}, {"rounds": []}
+
+    async def main(loop, net, log):
+        disc = cd.AirTouchDiscoverer(discovery_config=(d4 if g == 4 else d5).CONFIG,
+                                     remote_host=case.get("unicast"))
+        for k, answers in enumerate(case["rounds"]):
+            t0 = loop.time()
+            m = log.mark()
+            datas = []
+            for dt in answers:
+                data = valid_response(rnd, g)
+                datas.append(data)
+
+                def deliver(data=data):
+                    for tr in net.udp:
+                        if getattr(tr.sock, "bound", (None, None))[1] == UPORT[g]:
+                            tr.deliver(data, ("1.2.3.%d" % (10 + k), 9))
+                loop.call_at(t0 + dt, deliver)
+            r = await H.probe(log, "search", disc.search())
+            sends = [t - t0 for _, t, kk, d in log.since(m) if kk == "UDP.sendto"]
+            out["rounds"].append({"ret": r, "t": loop.time() - t0, "sends": sends,
+                                  "datas": datas, "answers": answers})
+            await asyncio.sleep(rnd.choice([0.0, 0.3, 2.0]))
+
+    _, log, st = H.run(main)
+
+    def v(mech, **d):
+        viol.append({"mechanism": mech, "detail": dict(d, case=case), "log": H.log_slice(log, 30)})
+
+    if st != "ok":
+        v("discovery-does-not-terminate", status=st)
+        return {"violations": viol, "evals": 1, "decided": 0, "obs": obs}
+    for k, rd in enumerate(out["rounds"]):
+        if isinstance(rd["ret"], Exception):
+            v("discovery-raises", exc=repr(rd["ret"]), round=k)
+            continue
+        answers = rd["answers"]
+        want_sends = [0.0]
+        for b in (0.5, 1.0):
+            if any(a < b for a in answers):
+                break
+            want_sends.append(b)
+        want_end = want_sends[-1] + 0.5
+        want = sorted(R.discovery_response(d)["id"] for d in rd["datas"]
+                      if any(True for a in answers) and True)
+        want = sorted(R.discovery_response(d)["id"] for d, a in zip(rd["datas"], answers)
+                      if a < want_end)
+        got = sorted(getattr(x, "airtouch_id", None) for x in rd["ret"])
+        if [round(x, 6) for x in rd["sends"]] != want_sends:
+            v("discovery-request-instants-wrong", round=k, sends=rd["sends"], want=want_sends)
+        elif abs(rd["t"] - want_end) > 1e-6:
+            v("discovery-returns-at-wrong-instant", round=k, at=rd["t"], want=want_end)
+        elif got != want:
+            v("answering-console-not-reported" if len(got) < len(want)
+              else "entry-for-a-console-that-did-not-answer-this-search", round=k, got=got,
+              want=want)
+        else:
+            obs["searches_on_a_reused_discoverer"] = obs.get(
+                "searches_on_a_reused_discoverer", 0) + (1 if k else 0)
+    n = len(out["rounds"])
+    return {"violations": H.cap(viol), "evals": n, "decided": n, "distinct": n, "obs": obs,
+            "sample": case}
+
+
 def run_case(case):
+    if case.get("k") == "reuse":
+        return run_reuse(case)
     script = case["script"]
     viol, obs = [], {}
     out = {}
